@@ -399,9 +399,16 @@ Section Net.
         end
     end.
 
+  (* pin_c / pin_s: the inbound sequence counter each side starts with (0 in reality; the harness presets
+     it near 2^32 - 1 to reach the roll-over boundary without sending 2^32 packets) *)
+  Variables (pin_c pin_s : Z).
+  Definition preset_in (st : peer) (v : Z) : peer := set_in st v (ep_in st) (g_in st) (nrecv st).
+
   Definition net0 : net :=
-    let '(c0, oc) := start cc in
-    let '(s0, os) := start cs in
+    let '(c0', oc) := start cc in
+    let '(s0', os) := start cs in
+    let c0 := preset_in c0' pin_c in
+    let s0 := preset_in s0' pin_s in
     let n := {| n_c := peer0; n_s := peer0; o_c := Continue; o_s := Continue; q_c := []; q_s := [];
                 i_c := 0; i_s := 0; rx_c := []; rx_s := []; tx_c := []; tx_s := [] |} in
     server_sends (client_sends n c0 Continue [] oc) s0 Continue [] os.
@@ -448,12 +455,13 @@ Definition side (st : peer) (mine other : outcome) (rx tx : list Z) : list Z :=
    Z.of_nat (length rx) / 2] ++ rx ++ [Z.of_nat (length tx) / 2] ++ tx.
 
 (* (kex family 0/1, client strict, server strict, ext-info, number of re-keys,
-    client / server repeats its strict name only in the initial KEXINIT, script) *)
-Definition run_scn (x : Z * bool * bool * bool * Z * bool * bool * script) : list Z :=
-  let '(k, sc_, ss_, ext, rk, oc_, os_, scr) := x in
+    client / server repeats its strict name only in the initial KEXINIT,
+    client / server initial inbound sequence number, script) *)
+Definition run_scn (x : Z * bool * bool * bool * Z * bool * bool * Z * Z * script) : list Z :=
+  let '(k, sc_, ss_, ext, rk, oc_, os_, pc_, ps_, scr) := x in
   let kf := if k =? 0 then KDH else KGEX in
   let n := scenario (cfg_of Client kf sc_ ext oc_) (cfg_of Server kf ss_ ext os_) scr
-                    (Z.to_nat (Z.min rk 4)) in
+                    (pc_ mod SEQ_MOD) (ps_ mod SEQ_MOD) (Z.to_nat (Z.min rk 4)) in
   side (n_c n) (o_c n) (o_s n) (rx_c n) (tx_c n) ++ side (n_s n) (o_s n) (o_c n) (rx_s n) (tx_s n).
 
 (* one transport alone, driven by a list of (type, ok, marker, epoch, mseq) with the ideal MAC:
